@@ -82,6 +82,7 @@ type State struct {
 	heap   map[string]*Term
 	defers []deferEntry
 	base   func(comp, sort string) *Term
+	oldDepth int // >0 while evaluating the argument of old(...)
 }
 
 type deferEntry struct {
@@ -91,7 +92,7 @@ type deferEntry struct {
 }
 
 func (s *State) clone() *State {
-	n := &State{pc: s.pc, heap: make(map[string]*Term, len(s.heap)), base: s.base}
+	n := &State{pc: s.pc, heap: make(map[string]*Term, len(s.heap)), base: s.base, oldDepth: s.oldDepth}
 	for k, v := range s.heap {
 		n.heap[k] = v
 	}
@@ -130,6 +131,7 @@ type Exec struct {
 	lockChecks bool
 	axioms   []*Term // global axioms of the memory model (independent of program point)
 	slAtSorts map[string]string
+	boxedLocs map[string]*Loc
 }
 
 type caseDef struct {
@@ -158,6 +160,13 @@ func (ex *Exec) note(format string, args ...any) {
 }
 
 func (ex *Exec) get(st *State, comp, sort string) *Term {
+	if st.oldDepth > 0 && st.base != nil && !strings.HasPrefix(comp, "loc.") {
+		// inside old(...): heap reads go to the pre-state
+		if s, ok := ex.compSort[comp]; !ok || s == sort {
+			ex.compSort[comp] = sort
+		}
+		return V("OLD."+comp, sort)
+	}
 	if t, ok := st.heap[comp]; ok {
 		return t
 	}
@@ -172,6 +181,16 @@ func (ex *Exec) get(st *State, comp, sort string) *Term {
 		t = ex.base(comp, sort)
 	}
 	st.heap[comp] = t
+	return t
+}
+
+// peek reads a component of the state's own heap, ignoring any old() region
+// (used when merging states).
+func (ex *Exec) peek(st *State, comp, sort string) *Term {
+	d := st.oldDepth
+	st.oldDepth = 0
+	t := ex.get(st, comp, sort)
+	st.oldDepth = d
 	return t
 }
 
@@ -532,7 +551,7 @@ func (fr *Frame) merge(b *ssa.BasicBlock, preds []*ssa.BasicBlock, out map[*ssa.
 		}
 		conds[i] = pcAnd(out[p].pc, c)
 	}
-	st := &State{heap: map[string]*Term{}, base: out[preds[0]].base}
+	st := &State{heap: map[string]*Term{}, base: out[preds[0]].base, oldDepth: out[preds[0]].oldDepth}
 	if len(preds) == 1 {
 		st = out[preds[0]].clone()
 		st.pc = conds[0]
@@ -553,7 +572,7 @@ func (fr *Frame) merge(b *ssa.BasicBlock, preds []*ssa.BasicBlock, out map[*ssa.
 		for _, k := range sortedKeys(comps) {
 			var acc *Term
 			for i := len(preds) - 1; i >= 0; i-- {
-				h := ex.get(out[preds[i]], k, ex.compSort[k])
+				h := ex.peek(out[preds[i]], k, ex.compSort[k])
 				if acc == nil {
 					acc = h
 				} else {
@@ -654,7 +673,7 @@ func (fr *Frame) mergeReturns() (*State, []Val) {
 	if len(rets) == 1 {
 		return rets[0].st, rets[0].vals
 	}
-	st := &State{heap: map[string]*Term{}, base: rets[0].st.base}
+	st := &State{heap: map[string]*Term{}, base: rets[0].st.base, oldDepth: rets[0].st.oldDepth}
 	conds := make([]*Term, len(rets))
 	for i, r := range rets {
 		conds[i] = r.st.pc
@@ -674,7 +693,7 @@ func (fr *Frame) mergeReturns() (*State, []Val) {
 	for _, k := range sortedKeys(comps) {
 		var acc *Term
 		for i := len(rets) - 1; i >= 0; i-- {
-			h := ex.get(rets[i].st, k, ex.compSort[k])
+			h := ex.peek(rets[i].st, k, ex.compSort[k])
 			if acc == nil {
 				acc = h
 			} else {
